@@ -142,7 +142,7 @@ def run(ctx):
     gd = hb.call_blocks(PROC + 'get_data_from_worker')
     ctx.floor('R18.4', len(gd), 1, 'get_data_from_worker calls')
     for g in gd:
-        keys = [k for k, d in scrutinees(hb, OPTION).items() if d['root'] == hb.term[g]['d'][0]]
+        keys = sorted([k for k, d in scrutinees(hb, OPTION).items() if d['root'] == hb.term[g]['d'][0]], key=len)
         ctx.require(keys, 'R18.4: Option of get_data_from_worker not matched')
         entries, region = hb.arm_entries(OPTION, {'None'}, keys[0])
         badc = [x for x in region if hb.term[x] and hb.term[x]['k'] == 'call' and 'log::' not in hb.term[x].get('x', '') and 'fmt' not in (callee_of(hb.term[x]) or '')]
